@@ -80,12 +80,9 @@ Move(u, from, to) == to \o SubSeq(u, Len(from) + 1, Len(u))
 Rnto(q) ==
   LET from == Res(renameFrom)
       to == Res(q)
-      ok == /\ Exists(from) /\ from # <<>> /\ ParentOK(to)
-            /\ IF from \in dirs
-                 THEN /\ (from = to \/ ~IsPrefixLoc(from, to))
-                      /\ to \notin DOMAIN files
-                      /\ (to \in dirs => (to = from \/ Children(to) = {}))
-                 ELSE to \notin dirs
+      \* os.Rename refuses every target that is an existing directory (also an empty one, also the source itself)
+      ok == /\ Exists(from) /\ from # <<>> /\ ParentOK(to) /\ to \notin dirs
+            /\ (from \in dirs => (~IsPrefixLoc(from, to) /\ to \notin DOMAIN files))
       under == { u \in dirs : IsPrefixLoc(from, u) }
       funder == { u \in DOMAIN files : IsPrefixLoc(from, u) }
   IN /\ touched' = touched \cup {from, to}
